@@ -197,6 +197,8 @@ def rule_counting(ctx):
 
 def run(ctx):
     eff = Effects(ctx.pkg)
+    from .c19 import digitwise_validation
+    digitwise_validation(ctx, "C15.1")   # string input: anything but 0/1 and the separators must raise in the shared parser
     rule_init(ctx)
     rule_closure(ctx, eff)
     rule_concat(ctx)
